@@ -302,6 +302,7 @@ func main() {
 	solverS := flag.String("solver", "z3-new -in", "solver command")
 	witnessEvery := flag.Int64("witness-every", 50, "keep every n-th ok path as a witness")
 	listFuncs := flag.Bool("list", false, "list harness functions")
+	panicsCut := flag.Bool("panics-cut", false, "an uncaught panic of the code under test ends the path as an assumption (for properties other than C03/C04)")
 	noFast := flag.Bool("nofast", false, "disable the per-byte domain pre-check (every feasibility question goes to the solver)")
 	flag.Parse()
 
@@ -340,7 +341,7 @@ func main() {
 	}
 	ex := &Explorer{sh: sh, harness: hf, args: args, cutAt: cutAt, budget: *budget, maxPaths: *maxPaths,
 		outcomes: map[string]int64{}, unsupported: map[string]int64{}, reach: map[string]int64{}, assumeCuts: map[string]int64{},
-		violations: map[string]*Violation{}, violCount: map[string]int64{}, witnessEvery: *witnessEvery, funcs: map[string]int64{}, noFast: *noFast}
+		violations: map[string]*Violation{}, violCount: map[string]int64{}, witnessEvery: *witnessEvery, funcs: map[string]int64{}, noFast: *noFast, panicsCut: *panicsCut}
 	ex.cond = sync.NewCond(&ex.mu)
 	if *timeout > 0 {
 		ex.deadline = time.Now().Add(*timeout)
